@@ -42,6 +42,55 @@ def encode_samples(ty, order, vals):
     return bytes(out)
 
 
+ENC_EXT = {'none': '', 'text': '.txt', 'sie': '.sie', 'gzip': '.gz', 'bzip2': '.bz2', 'lzma': '.xz'}
+
+
+def text_encode(ty, vals):
+    out = []
+    for v in vals:
+        if ty in ('f32', 'f64'):
+            if v != v:
+                out.append("nan")
+            else:
+                out.append(("%.9g" if ty == 'f32' else "%.17g") % v)
+        else:
+            out.append(str(int(v)))
+    return ("\n".join(out) + ("\n" if out else "")).encode()
+
+
+def sie_encode(ty, order, vals, merge=True):
+    """(last-sample-index int64 in fragment integer byte order, value) records"""
+    big = order.startswith('be')
+    recs = []
+    for i, v in enumerate(vals):
+        b = encode_samples(ty, order, [v])
+        if merge and recs and recs[-1][1] == b:
+            recs[-1][0] = i
+        else:
+            recs.append([i, b])
+    out = bytearray()
+    for idx, b in recs:
+        out += struct.pack(('>' if big else '<') + 'q', idx) + b
+    return bytes(out)
+
+
+def file_encode(enc, ty, order, vals, raw_bytes):
+    import gzip, bz2, lzma
+    if enc == 'none':
+        return raw_bytes
+    if enc == 'text':
+        return text_encode(ty, vals)
+    if enc == 'sie':
+        return sie_encode(ty, order, vals)
+    if enc == 'gzip':
+        return gzip.compress(raw_bytes, mtime=0)
+    if enc == 'bzip2':
+        return bz2.compress(raw_bytes)
+    if enc == 'lzma':
+        return lzma.compress(raw_bytes, format=lzma.FORMAT_XZ)
+    raise ValueError(enc)
+
+
 def rand_value(rng, ty, regime):
     if ty in ('f32', 'f64'):
         if regime == 'exact' or rng.random() < 0.5:
@@ -70,12 +119,13 @@ def rand_value(rng, ty, regime):
 class Dirfile:
     """One fragment, unencoded RAW files, vector fields of every modelled type."""
 
-    def __init__(self, rng, regime='exact', max_fields=8, spfs=(1, 2, 3, 5, 7, 8), depth=4,
+    def __init__(self, rng, regime='exact', max_fields=8, spfs=(1, 2, 3, 5, 7, 8), depth=4, enc='none',
                  types=REAL_TYPES, allow=('lincom', 'linterp', 'bit', 'sbit', 'multiply', 'divide', 'recip',
                                           'phase', 'polynom', 'window', 'indir')):
         self.rng = rng
         self.regime = regime
         self.order = rng.choice(list(ORDERS))
+        self.enc = enc
         self.foff = rng.choice([0, 0, 1, 2, 3])
         self.fields = []      # dicts
         self.consts = []      # (name, type, value text) used for scalar indirection
@@ -95,7 +145,7 @@ class Dirfile:
                                 rng.randint(1, 40)])
         vals = [rand_value(rng, ty, self.regime) for _ in range(nsamp)]
         f = dict(kind='raw', name=name, ty=ty, spf=spf, vals=vals, depth=0,
-                 partial=(rng.randint(1, SIZE[ty] - 1) if SIZE[ty] > 1 and rng.random() < 0.15 else 0))
+                 partial=(rng.randint(1, SIZE[ty] - 1) if SIZE[ty] > 1 and rng.random() < 0.15 and self.enc == 'none' else 0))
         self.fields.append(f)
         return f
 
@@ -235,7 +285,7 @@ class Dirfile:
 
     # -- output -------------------------------------------------------------
     def format_text(self):
-        L = ["/VERSION 10", "/ENDIAN " + ORDERS[self.order], "/ENCODING none"]
+        L = ["/VERSION 10", "/ENDIAN " + ORDERS[self.order], "/ENCODING " + self.enc]
         if self.foff:
             L.append("/FRAMEOFFSET %d" % self.foff)
         for (n, t, v) in self.consts:
@@ -265,7 +315,7 @@ class Dirfile:
             if f['kind'] == 'raw':
                 b = self.raw_bytes(f)
                 f['bytes'] = b
-                L.append("file %s %s" % (f['name'], b.hex()))
+                L.append("file %s%s %s" % (f['name'], ENC_EXT[self.enc], file_encode(self.enc, f['ty'], self.order, f['vals'], b).hex()))
                 L.append("def raw %s %s %d %d %s %s" % (f['name'], f['ty'], f['spf'], self.foff, self.order, b.hex()))
             else:
                 for d in f['deff'].split("\n"):
